@@ -166,6 +166,26 @@ def mutators_between(f, guard_block, site_block, site_root, own_call_block=None)
     return bad
 
 
+_LOOKS = ("first", "peek", "first_is", "first_is_cased", "first_is_uncased", "peek_is", "peek_is_cased", "peek_is_uncased", "is_buffer_empty",
+          "is_consumed", "as_slice", "buffer_length", "peek_u32", "peek_u64", "read_if", "read_if_value", "read_if_value_cased", "read_if_value_uncased")
+
+
+def _looked_at_on_every_edge(f, bb, recv):
+    from rules.core import reach_alternatives
+    alts = reach_alternatives(f, bb)
+    if not alts:
+        return False
+    for conds in alts:
+        ok = False
+        for _d, e, _p in conds:
+            for c in expr_calls(e):
+                if last_seg(c[1]) in _LOOKS and c[2] and root(c[2][0]) == recv:
+                    ok = True
+        if not ok:
+            return False
+    return True
+
+
 def rule_iter_steps(col, facts, crates):
     """GRD-step: every Iter::step_unchecked / step_by_unchecked(N) is dominated by a guard giving
     at least N available bytes on the same iterator, with no cursor movement in between."""
@@ -197,6 +217,12 @@ def rule_iter_steps(col, facts, crates):
             if not best:
                 if f.unsafe and f.short.endswith("Iter::step_unchecked"):
                     col.ok(R, key, "Iter::step_unchecked is itself unsafe: forwards the obligation", loc)
+                    continue
+                # a guard that is there but spelt in a way this rule does not read (`leading == Some(b'+')` on a copy
+                # of `first()`, joined with `||`): every way into the block carries a condition computed from a look at
+                # the same iterator.  That is not a finding; the site is recorded as not decided.
+                if _looked_at_on_every_edge(f, bb, recv):
+                    col.assumed("not-applied", "GRD-step:%s" % key, "the step is dominated on every incoming edge by a condition computed from a look at the same iterator, in a form the guard reader does not know: not decided", loc)
                     continue
                 col.bad(R, key, "%s(%s) is not dominated by a successful peek/first/first_is/is_buffer_empty/peek_u%d on the same iterator (facts on path: %s)" %
                         (last_seg(cn), show(recv), 8 * need if need > 1 else 32, [(show(r), cap, how) for r, cap, _g, how in iter_capacity_facts(path_conditions(f, bb))]), loc)
